@@ -340,3 +340,101 @@ Proof.
     rewrite (count_upd_eq (having c) _ i (k, pc') (k, pc) Hp (Hv c)).
     rewrite (count_upd_eq (qowns c) _ q (q_set_refs Q r') Q Hq eq_refl). apply (a_own s I c).
 Qed.
+
+(* one convoy moves: only its queue record (not key / channel), the map and the pool may change *)
+Lemma A_qstep s s' q Q Q' :
+  InvA s -> nth_error (st_qs s) q = Some Q ->
+  st_qs s' = upd (st_qs s) q Q' -> st_prods s' = st_prods s -> length (st_chans s') = length (st_chans s) ->
+  q_key Q' = q_key Q -> is_ns (q_pc Q') = is_ns (q_pc Q) ->
+  (active (q_pc Q) = false -> active (q_pc Q') = false) ->
+  (forall k0 q0, st_map s' k0 = Some q0 -> st_map s k0 = Some q0) ->
+  (forall q0 Q0, q0 <> q -> nth_error (st_qs s) q0 = Some Q0 -> active (q_pc Q0) = true -> st_map s' (q_key Q0) = Some q0) ->
+  (active (q_pc Q') = true -> st_map s' (q_key Q) = Some q) ->
+  (gone (q_pc Q') = true -> st_map s' (q_key Q) <> Some q) ->
+  (if active (q_pc Q') then q_refs Q' = Z.of_nat (count (holds q) (st_prods s))
+   else (q_refs Q' < 0)%Z /\ count (holds q) (st_prods s) = 0) ->
+  (forall c, count (qowns c) (upd (st_qs s) q Q') + count (Nat.eqb c) (st_pool s')
+             = count (qowns c) (st_qs s) + count (Nat.eqb c) (st_pool s)) ->
+  InvA s'.
+Proof.
+  intros I Hq EQ EP EC Hk Hns Hin HM1 HM2 HM3 HM4 HR HO. constructor; rewrite ?EQ, ?EP, ?EC.
+  - intros k0 q0 H. apply HM1 in H. destruct (a_map s I _ _ H) as (Q0 & Hq0 & Hk0).
+    destruct (mono_upd _ q Q Q' Hq Hk Hin q0 Q0 Hq0) as (Q0' & H0 & E & _).
+    exists Q0'. split; [assumption|congruence].
+  - intros q0 Q0 H A0. updc H; [rewrite Hk; auto|apply (HM2 q0 Q0); auto].
+  - intros q0 Q0 H A0. updc H; [rewrite Hk; auto|].
+    intros C. apply HM1 in C. revert C. apply (a_gone s I q0 Q0 H A0).
+  - intros q0 Q0 H. updc H; [exact HR|apply (a_refs s I q0 Q0 H)].
+  - intros q0 Q0 H. updc H; [rewrite Hns; apply (a_creat s I q Q Hq)|apply (a_creat s I q0 Q0 H)].
+  - intros i0 k0 pc0 H. eapply pc_ok_mono; [|apply (a_prod s I _ _ _ H)].
+    rewrite EQ. apply (mono_upd _ q Q); auto.
+  - intros c. unfold chown. rewrite ?EQ, ?EP, ?EC. rewrite (HO c). apply (a_own s I c).
+Qed.
+
+Lemma qowns_upd_same qs q Q Q' c :
+  nth_error qs q = Some Q -> q_ch Q' = q_ch Q -> live (q_pc Q') = live (q_pc Q) ->
+  count (qowns c) (upd qs q Q') = count (qowns c) qs.
+Proof. intros H E1 E2. apply (count_upd_eq _ _ _ _ Q H). unfold qowns. congruence. Qed.
+
+Ltac conv_frame s I Hq Hpc :=
+  apply (A_frame s);
+  [exact I
+  |simp_st; apply (map_upd_same qv _ _ _ _ Hq); unfold qv; simp_q; rewrite Hpc; reflexivity
+  |reflexivity|reflexivity|simp_st; rewrite ?upd_length; reflexivity
+  |reflexivity|reflexivity|reflexivity|exact (a_prod s I)].
+
+Ltac qstep_auto s I Hq Hpc :=
+  simp_st; simp_q; rewrite ?Hpc; try reflexivity; try discriminate; auto;
+  try (intros q0 Q0 N H0 A0; apply (a_act s I q0 Q0 H0 A0));
+  try (intros c0; rewrite (qowns_upd_same _ _ _ _ _ Hq); [reflexivity|reflexivity|simp_q; rewrite Hpc; reflexivity]).
+
+Lemma A_step_conv s q c : InvA s -> InvA (step_conv s q c).
+Proof.
+  intros I. unfold step_conv.
+  destruct (nth_error (st_qs s) q) as [Q|] eqn:Hq; [|exact I].
+  destruct (q_pc Q) eqn:Hpc; try exact I.
+  - (* CTop *)
+    destruct (chan s (q_ch Q)) as [|t r]; conv_frame s I Hq Hpc.
+  - (* CPopOver *)
+    destruct (if pop_overflow_rechecks_channel then chan s (q_ch Q) else []) as [|t0 r0];
+      [destruct (q_over Q) as [|t r]|]; conv_frame s I Hq Hpc.
+  - (* CRun *) conv_frame s I Hq Hpc.
+  - (* CWait *)
+    destruct c; try exact I.
+    + destruct (chan s (q_ch Q)) as [|t r]; [exact I|conv_frame s I Hq Hpc].
+    + destruct (_ || _ || _); [exact I|conv_frame s I Hq Hpc].
+    + conv_frame s I Hq Hpc.
+  - (* CChecked *)
+    destruct (q_refs Q =? 0)%Z eqn:Er; [|conv_frame s I Hq Hpc].
+    apply Z.eqb_eq in Er. pose proof (a_refs s I q Q Hq) as R. rewrite Hpc in R. cbn in R.
+    apply (A_qstep s _ q Q (q_set_pc (q_set_refs Q refs_sentinel) CClaimed) I Hq); qstep_auto s I Hq Hpc.
+    cbn. split; [reflexivity|lia].
+  - (* CClaimed *)
+    pose proof (a_refs s I q Q Hq) as R. rewrite Hpc in R. cbn in R.
+    destruct (opt_is (st_map s (q_key Q)) q) eqn:Eo.
+    + apply opt_is_true in Eo.
+      apply (A_qstep s _ q Q (q_set_pc Q CDeleted) I Hq); qstep_auto s I Hq Hpc.
+      * intros k0 q0. unfold map_set. destruct (k0 =? q_key Q); [discriminate|auto].
+      * intros q0 Q0 N H0 A0. pose proof (a_act s I q0 Q0 H0 A0) as M.
+        rewrite map_set_other; [assumption|]. intros E. rewrite E in M. congruence.
+      * intros _. rewrite map_set_same. discriminate.
+    + apply opt_is_false in Eo.
+      apply (A_qstep s _ q Q (q_set_pc Q CDelFailed) I Hq); qstep_auto s I Hq Hpc.
+  - (* CDeleted *)
+    pose proof (a_refs s I q Q Hq) as R. rewrite Hpc in R. cbn in R.
+    assert (G : st_map s (q_key Q) <> Some q) by (apply (a_gone s I q Q Hq); now rewrite Hpc).
+    apply (A_qstep s _ q Q (q_set_pc Q CExit) I Hq); qstep_auto s I Hq Hpc.
+    intros c0. pose proof (count_upd (qowns c0) _ q (q_set_pc Q CExit) Q Hq) as C.
+    assert (E1 : qowns c0 Q = (c0 =? q_ch Q)) by (unfold qowns; rewrite Hpc; reflexivity).
+    assert (E2 : qowns c0 (q_set_pc Q CExit) = false) by reflexivity.
+    rewrite E1, E2 in C. rewrite count_cons. cbn [b2n] in C. lia.
+  - (* CDelFailed *)
+    pose proof (a_refs s I q Q Hq) as R. rewrite Hpc in R. cbn in R.
+    assert (G : st_map s (q_key Q) <> Some q) by (apply (a_gone s I q Q Hq); now rewrite Hpc).
+    destruct (opt_is (st_map s (q_key Q)) q) eqn:Eo; [apply opt_is_true in Eo; contradiction|].
+    apply (A_qstep s _ q Q (q_set_pc Q CExit) I Hq); qstep_auto s I Hq Hpc.
+    intros c0. pose proof (count_upd (qowns c0) _ q (q_set_pc Q CExit) Q Hq) as C.
+    assert (E1 : qowns c0 Q = (c0 =? q_ch Q)) by (unfold qowns; rewrite Hpc; reflexivity).
+    assert (E2 : qowns c0 (q_set_pc Q CExit) = false) by reflexivity.
+    rewrite E1, E2 in C. rewrite count_cons. cbn [b2n] in C. lia.
+Qed.
